@@ -47,12 +47,12 @@ def oracle(spec: dict, res: dict, failing: bool):
 class C07(Property):
     pid = "C07"
     title = "Recorded provenance is complete and acyclic"
-    lean_targets = ["SFV.Props.C07", "SFV.Props.C07Net"]
+    lean_targets = ["SFV.Model.Exec", "SFV.Model.TfMachine", "SFV.Model.LoopComb", "SFV.Gen.StepGuards", "SFV.Props.C07", "SFV.Props.C07Net"]
     props_files = ["SFV/Props/C07.lean", "SFV/Props/C07Net.lean"]
     drivers = ["Drivers/Net.lean"]
     translators = []
     rule = ("the token and provenance tables of the SQLite database are dumped after every run of random well-formed DAG workflows "
-            "(sfv.rt.wfgen, real step classes incl. job pipelines) under the default order and 2 (quick) / 3 (thorough) PRNG interleavings; "
+            "(sfv.rt.wfgen, real step classes incl. job pipelines) under the default order and 1 (quick) / 3 (thorough) PRNG interleavings; "
             "one third of the workflows with an injected transformer failure (table-level checks only). Checked per run: dependee id < "
             "depender id on every row, no dangling id, no cycle (DFS), every data token of every port persisted, the edge set (tokens "
             "identified by port:tag) equal to what the property demands (oracle) and to the Lean model `prov` (driver); job outputs linked "
@@ -80,7 +80,7 @@ class C07(Property):
 
     def explore(self, ctx: Ctx) -> None:
         rng = ctx.rng
-        n, k = (200, 3) if ctx.tier == "thorough" else (40, 2)
+        n, k = (200, 3) if ctx.tier == "thorough" else (30, 1)
         if ctx.mode == "search":
             n, k = n * 2, k + 2
         lines, metas = [], []
